@@ -54,6 +54,15 @@ def normalise_agent_loops(it, effs):
     per agent by C10) is the loop `for k in range(num_lecturers)` with uq = model.lec_upper_quotas[k]"""
     from .absint import map_effects
     from .canon import replace
+    def copy_of_agent_list(t):
+        # [model.X[k] for k in range(model.num_<sort of X>)]  is  model.X  (one entry per agent, C10)
+        if t[0] == 'comp' and len(t[1]) == 1 and t[1][0][1] == TRUE and t[2][0] == 'idx' and t[2][2] == t[1][0][0] and lp.model_attr(t[2][1]) in AGENT_LISTS:
+            dom = t[1][0][0][3]
+            n = A(t[2][1][1], AGENT_LISTS[lp.model_attr(t[2][1])])
+            if dom in (CALL(S('range'), [n]), CALL(S('range'), [CALL(S('len'), [t[2][1]])])):
+                return t[2][1]
+        return None
+    effs = map_effects(effs, copy_of_agent_list)
     found = {}
     def scan_term(t):
         for x in walk(t):
@@ -328,7 +337,7 @@ def lb_agreement(rep, r, rule, cfg):
     declared = 'abs_lec_diff' in r.canon.var_arrays or any(l == 'd' for l, _ in r.canon.arr_letter.values())
     for a_, (l_, sort_) in sorted(r.canon.arr_letter.items()):
         if l_ == 'd':
-            rep.check(sort_ == 'L', rule, uses[0].where, 'one deviation variable is declared per lecturer %s' % cfg, got='one per %s' % {'P': 'project', 'S': 'student', None: 'element of an unrecognised range'}.get(sort_, sort_),
+            rep.check(sort_ in ('L', None), rule, uses[0].where, 'one deviation variable is declared per lecturer %s' % cfg, got='one per %s' % {'P': 'project', 'S': 'student', None: 'element of an unrecognised range'}.get(sort_, sort_),
                       want='for lec_index in range(num_lecturers)', construct='deviation variables per %s' % sort_)
     rep.check(declared, rule, uses[0].where, 'the load-deviation variables are declared for this criterion list %s' % cfg,
               got='not declared', construct='deviation variables undeclared', loc=uses[0].loc)
